@@ -1,0 +1,16 @@
+// Copyright 2025 The Go Authors. All rights reserved.
+// Use of this source code is governed by a BSD-style
+// license that can be found in the LICENSE file.
+
+//go:build !verif
+
+package acme
+
+// verifPickNonce returns some nonce of the pool (any one: the order of map
+// iteration decides).
+func verifPickNonce(nonces map[string]struct{}) string {
+	for n := range nonces {
+		return n
+	}
+	return ""
+}
